@@ -16,8 +16,8 @@ CFG = dict(
         "private keys are arbitrary values (model input); payloads arbitrary byte lists; histories arbitrary event lists",
         "agreement theorems carry the side condition `safe`: no reply is lost while a key announcement is unacknowledged (keysNext pending, or the "
         "lost reply is the SvComplete with the server key); those three history shapes are refuted witnesses and known findings",
-        "single device per connection: proxy / multi-device containers and channel mode (conn.keys is a per-connection copy that a re-key during "
-        "a channel does not refresh) are outside the model",
+        "single device per connection: proxy / multi-device containers and channel mode are outside the model (channel mode: oracle-only scenario; "
+        "since 28f32da no re-key starts inside a channel)",
     ],
     level_text="22 theorems over the Gallina model of subtle.XorOp / Chunk.KeyCrypt, KeyPair.fillShared and the key state machine of both ends "
                "(keyNextSync, keyCheckSync, keyCheckRevert, keySessionGenerate, keySessionSync, keyListenerInit, keyCryptAndUpdate, the per-connection key copy): "
@@ -25,8 +25,8 @@ CFG = dict(
                "that is harmless while previous shares are equal; for ALL histories (induction over the event list: handshakes, re-keys, traffic, failed writes, "
                "harmless reply losses, server restarts, re-registrations, ECDH outputs of any length) both ends hold the same share and keysNext = nil whenever "
                "the client is idle and registered; a failed write reverts; payloads round-trip under agreement. Three fault shapes violate the property on the "
-               "real code (refuted in Coq, reproduced by the harness on every run, known findings); a fourth (re-key merged into a Multi container) was repaired. "
-               "The model is tied to /repo by ~1600 cases per run: real XorOp/KeyCrypt, real P-521 KeyPairs incl. forced short secrets, and scripted histories "
+               "real code (refuted in Coq, reproduced by the harness on every run, known findings); a fourth (re-key merged into a Multi container) and a fifth (re-key inside a channel, found by the oracle-only channel scenario) were repaired. "
+               "The model is tied to /repo by ~1400 cases per run: real XorOp/KeyCrypt, real P-521 KeyPairs incl. forced short secrets, and scripted histories "
                "through the real session()/handle() with injected faults, each evaluated by the model inside Coq.",
     level_note="Proof is about the model; the tie to the code is differential (distribution in the evidence). Trusted: Coq kernel+vm_compute, ECDH commutativity "
                "(section hypothesis), the harness and its in-memory connection, the hand-made cut into events. No axioms.",
